@@ -1,7 +1,8 @@
 """C19 — any editing history leaves a consistent module that simulates its tables.
 
-Explicit-state BFS (vf.explorer) from three non-trivial initial states over ~30 concrete operations;
-invariants I1–I7 on every reached state, I9 (integrate == reference simulator built from the displayed
+Explicit-state BFS (vf.explorer) from four non-trivial initial states over ~30 concrete operations each;
+invariants I1–I8, I10, I11 on every reached state (I8/I10/I11 are frame conditions: delete_* / delete_channel through a
+view and connect change only the rows they denote), I9 (integrate == reference simulator built from the displayed
 tables) on every distinct state up to the simulation depth.
 """
 from __future__ import annotations
@@ -16,8 +17,8 @@ from vf.runner import digest
 ID = "C19"
 LEVEL = "model_checking"
 RULE = (
-    "BFS from three initial states (irregular cell with Na+K on overlapping branch sets; same cell with HH on a subset; 2-cell network "
-    "with two synapse types) over the operation alphabet {insert/delete of channels sharing columns, set, set_ncomp, add_to_group, "
+    "BFS from four initial states (irregular cell with Na+K on overlapping branch sets; same cell with HH on a subset; 2-cell network "
+    "with two synapse types; 2-cell network whose cells carried different channel sets before assembly) over the operation alphabet {insert/delete of channels sharing columns, set, set_ncomp, add_to_group, "
     "record, delete_recordings, stimulate, clamp, delete_stimuli, delete_clamps, make_trainable, delete_trainables, connect, init_states} "
     "on small views, depth 2 (quick) / 3 (thorough); replay from scratch per history; canonical snapshot hashing merges commuting "
     "histories; invariants on every state, integrate-vs-tables reference on every distinct state (depth<=1 quick for all inits, "
